@@ -44,6 +44,9 @@ CHECKS = {
     "C07": ("output monitor: serialize(T, v) validated by jsonschema against serialization_schema(T) generated under the same global settings + explicit key-level sub-claims (declared keys, required keys, methods / init=False fields present)",
             "Exploration: for generated programs and well-typed values, under the four combinations of global exclude_defaults / exclude_none, aliasers and additional_properties, the serialized data must validate against the serialization schema; every emitted key must be declared or allowed, every required key emitted, serialized methods and init=False fields present in properties.",
             "Trusted: jsonschema validator; explanatory model for the flattened-object finding (F22); dependent_required programs are not generated (input-side rule).", "DESIGN §5 C07"),
+    "C19": ("boundary monitors on graphql_schema / validate_schema / print_schema / graphql_sync + resolver call log; oracles: model of the documented type mapping (one-to-one type-map walk), apischema.serialize for result data, apischema.deserialize for arguments",
+            "Exploration: every generated program (data model + operations + settings) is built, validated with graphql-core, printed, walked against a model of the documented mapping (kinds, names under the GraphQL aliaser, nullability, ID, enum values, interfaces, unions, defaults), executed with queries selecting every field (result = serialize of the resolver value, enums by name, Undefined as null) and with valid / invalid / omitted arguments passed through variables (resolver log = deserialize values; invalid arguments give errors and an empty log).",
+            "Trusted: the mapping model and program generator (vf/c19_model.py), graphql-core 3.2.4; argument validity for GraphQL-well-typed data is decided by the real deserialize.", "DESIGN §5 C19"),
 }
 PLANNED = {
 }
